@@ -134,7 +134,8 @@ def native_cases(rng, n, widths=(7, 5, 1, 9)):
 
 
 @bounded(PROPERTY, "native_thresholds", bound="200 (thorough 3000) random arrays, nc in {1,2,5,10,384,400}, ns<120, values just below/at/above 98% on about the proportion of channels, "
-         "per-channel/scalar ranges, widths {1,5,7,9} + even widths {2,4,8} (known finding)", clause="all clauses natively incl. mean>p versus counts in binary64")
+         "per-channel/scalar ranges, widths {1,5,7,9} + even widths {2,4,8}; float32 traces one ulp below / on / above 98 % of 32 (thorough 208) double-precision ranges x both signs x scalar / per-channel, decided in exact rationals; "
+         "arrays of 2^17 + 9 samples with a slew-only event at 27 positions around the powers of two", clause="all clauses natively incl. mean>p versus counts in binary64")
 def b_native(B):
     rng = np.random.default_rng(B.seed)
     bad = native_cases(rng, 200 if B.tier == "quick" else 3000)
@@ -151,6 +152,36 @@ def b_native(B):
             want = np.array([fractions.Fraction(cnt, nc) > fractions.Fraction(p) for cnt in range(nc + 1)])
             ok = ok and np.array_equal(s, want)
     B.case("fraction_vs_count_all_nc", bool(ok), detail="mean(mask) > p differs from the exact count rule for some (count, nc<=400)")
+    # float32 traces against double-precision ranges (a Python number / float64 per channel): channels sitting on the float32 numbers
+    # just below / nearest / just above 98 % of the range; the expected flag is decided in exact rational arithmetic
+    badx = []
+    for r in [1.0, 5.0, 0.6, 1.2, 0.5, 0.62, 2.5, 3.3] + [float(x) for x in rng.uniform(0.3, 6.0, 24 if B.tier == "quick" else 200)]:
+        exact_thr = fractions.Fraction(0.98) * fractions.Fraction(r)
+        near = np.float32(0.98 * r)
+        for v in (np.nextafter(near, np.float32(0)), near, np.nextafter(near, np.float32(10))):
+            for sign in (1, -1):
+                for per_channel in (False, True):
+                    x = np.zeros((5, 6), np.float32)
+                    x[:3, 2] = sign * v                       # 3 of 5 channels > proportion 0.5
+                    x[:2, 4] = sign * v                       # 2 of 5: not more than the proportion
+                    mv = np.full(5, r, np.float64) if per_channel else r
+                    s_, m_ = V.saturation(x, mv, v_per_sec=1e9, proportion=0.5)
+                    over = fractions.Fraction(float(v)) > exact_thr
+                    want = np.zeros(6, bool)
+                    want[2] = over
+                    if not (np.array_equal(s_, want) and (not over or m_[2] == 0)):
+                        badx.append({"range": r, "value": float(v), "per_channel_range": per_channel, "flags": s_.tolist(), "exceeds_98_percent": bool(over)})
+    B.case("float32_traces_on_the_98_percent_boundary_double_ranges", not badx, detail=badx[:4])
+    # long arrays: a slew-only event at every position 2^k - 1 -> 2^k and around it (block-wise implementations must not lose the sample pairs that straddle two blocks)
+    nsl = 2 ** 17 + 9
+    badl = []
+    for pos in sorted({2 ** k - 1 + d for k in (8, 10, 12, 13, 14, 15, 16, 17) for d in (-1, 0, 1)} | {nsl - 2, 0, 99999}):
+        x = np.zeros((3, nsl), np.float32)
+        x[:, pos + 1:] = 600e-6                                # a common step between pos and pos + 1 (below 98 % of the range)
+        s_, m_ = V.saturation(x, 1.0, v_per_sec=1e-8, fs=30000.0, proportion=0.2)
+        if not (np.flatnonzero(s_).tolist() == [pos] and m_[pos] == 0):
+            badl.append({"step_between": [pos, pos + 1], "flagged": np.flatnonzero(s_)[:5].tolist(), "mute_there": float(m_[pos])})
+    B.case("slew_event_at_every_power_of_two_boundary_of_a_long_array", not badl, detail=badl[:4])
     for M in (2, 4, 8):
         x = np.zeros((1, 50), np.float32)
         x[0, 25] = 10
